@@ -19,6 +19,7 @@ func init() {
 		Assumptions: []string{"sync.WaitGroup / context cancellation semantics"},
 		Rules: map[string]string{
 			"R0": "in each stop unit claim.Store(false), state.Store(STOPPED) and the call of the cancel field have the election mutex (W) in their must-lockset and all precede the first Unlock; the goroutine that waits for the WaitGroup is started after that Unlock",
+			"R10": "for the conditional (revision-checked) shutdown delete: from the call that leads to it, the ownership verdict call of the same function is reachable again (a bounded read-then-delete loop)",
 			"R9": "every tracked go statement (wg.Add + go) outside tracked goroutines and the start/stop units has the election mutex in its must-lockset and is guarded by run-liveness (ctx != nil && ctx.Err() == nil, or state != STOPPED) or by claim == true, the tested state being read under that lock hold",
 			"R8": "in an API stop unit that takes a context / time-out: no KeyValue operation reachable by plain calls (each must be issued from a goroutine whose result is awaited with the remaining time); no blocking wait on time.After(d) reachable after another wait on the same d",
 			"R7": "at every test of the claim-set unit's result after an own write: must-follow from the refused (false) edge of a call that reaches a Delete-class store operation (its conditions are C01-R6: shutdown with key deletion under way, own revision)",
@@ -400,6 +401,8 @@ func checkC09(c *Ctx) {
 			case strings.Contains(s, "DeleteKey"):
 			case m.isClaimValueSym(l.S), m.prevClaimLit(l, true):
 			case strings.Contains(s, "select "):
+			case func() bool { t, ok := m.loopCounterBound(l); return ok && t <= 8 }():
+				// the header test of a small counted retry loop around the deletion
 			case m.isWaitHelperResult(l):
 				// the outcome of a wait helper: which case of its select was taken
 			case m.verdictCall(Lit{S: l.S, Truth: true}) != nil:
@@ -419,6 +422,31 @@ func checkC09(c *Ctx) {
 				extras := uniqStrings(m.ownershipExtras[g])
 				c.check(len(extras) == 0, "R5", "ownership verdict demands nothing beyond id and term token in "+shortFn(g), op.Call,
 					"additional conditions for a positive verdict: %v. The record's owner can then fail its own ownership check (e.g. while a heartbeat is in flight) and the key is not deleted although DeleteKey was requested.", extras)
+				// R10: a refused conditional delete is followed by a fresh ownership read. The read and
+				// the delete are two operations; this instance's own heartbeat Update, in flight when
+				// the stop began, can land between them: the delete of the revision that was read is
+				// refused although the record is still the instance's own.
+				if op.Extension != "" {
+					var del ssa.Instruction = op.Call
+					if lifted := m.liftTo(vc.Parent(), op.Call); lifted != nil {
+						del = lifted
+					} else {
+						for _, ci := range stopFr.Chain {
+							if ci.Parent() == vc.Parent() {
+								del = ci
+							}
+						}
+					}
+					retried := del.Parent() == vc.Parent() && reachableAfter(del, func(x ssa.Instruction) bool { return x == ssa.Instruction(vc) }) != nil
+					// a counted loop around the read must allow a second cycle
+					for _, l := range m.GuardsAt(vc) {
+						if trips, ok := m.loopCounterBound(l); ok && trips < 2 {
+							retried = false
+						}
+					}
+					c.check(retried, "R10", "a refused conditional delete is followed by a new ownership read in "+shortFn(vc.Parent()), op.Call,
+						"from the conditional delete (%s) the ownership read %s is reachable again: %v. Without a retry a heartbeat Update that was in flight when the stop began and lands between the read and the delete leaves the owner's record in the store (no longer refreshed) while StopWithContext{DeleteKey} returns nil: the successor waits for the expiry.", c.posOf(del), shortFn(g), retried)
+				}
 			}
 		}
 		// on the success path: every `return nil` reachable after the ownership verdict passes the Delete or the verdict's negative edge
